@@ -10,8 +10,6 @@ package cache
 // C04: TTLs served from the cache never outlive the record.
 
 // lowBound(sec, t): t is no greater than the TTL of any non-OPT record of sec.
-//@ pred lowBound(sec []dns.RR, t int) = forall j int :: 0 <= j && j < len(sec) && !isOPT(sec[j]) ==> t <= hdrOf(sec[j]).Ttl
-//@ pred lowBoundUpTo(sec []dns.RR, n int, t int) = forall j int :: 0 <= j && j <= n && j < len(sec) && !isOPT(sec[j]) ==> t <= hdrOf(sec[j]).Ttl
 
 //@ func getTTLIfLower
 //@   property C04
@@ -20,7 +18,6 @@ package cache
 
 // lastLowest records the result of the latest findLowestTTL call, so that the
 // callers' contracts can refer to it.
-//@ ghost lastLowest int
 
 //@ func findLowestTTL
 //@   property C04
@@ -43,7 +40,6 @@ package cache
 // seconds, floor zero.
 //@ pred secsLeft(low int, ageNs int) = roundHalfAway(real(low) - real(ageNs) / real(1000000000))
 //@ pred servedTTL(low int, ageNs int) = secsLeft(low, ageNs) > 0 ? secsLeft(low, ageNs) : 0
-//@ pred allTTL(sec []dns.RR, t int) = forall j int :: 0 <= j && j < len(sec) ==> hdrOf(sec[j]).Ttl == t
 
 //@ pred ownSlice(s []dns.RR) = arr(s) == 0 || fresh(s)
 
